@@ -475,6 +475,7 @@ func (e *Engine) runPath(sol *Solver, in *Instance, prefix []Decision) (res *Pat
 		args[i] = ctx.BV(uint64(a), 64)
 	}
 	p.callSSA(nil, fn, args, nil)
+	p.ensureFeasible()
 	if p.di < len(p.prefix) {
 		panic(engineError{"path finished before consuming its decision prefix"})
 	}
